@@ -5,6 +5,7 @@ import (
 	"strings"
 	"sync"
 
+	"github.com/douban/gobeansdb/vhook"
 	yaml "gopkg.in/yaml.v2"
 )
 
@@ -66,6 +67,8 @@ func (table *CollisionTable) dump(path string) {
 		logger.Errorf("unmarshal yaml faild %s: %s", path, err.Error())
 		return
 	}
+	vhook.FS(vhook.Before, "writefile", path, 0, 0)
+	defer vhook.FS(vhook.After, "writefile", path, 0, 0)
 	err = ioutil.WriteFile(path, content, 0644)
 	if err != nil {
 		logger.Errorf("write yaml failed %s: %s", path, err.Error())
